@@ -21,6 +21,8 @@ package actions
 //@   ensures unregistered: (onlyInternal || len(pubNotifyHooks) == 0) ==>
 //@     (forall k int, c chan struct{} :: 0 <= k && k < len(subIDs) ==> !waiting(subIDs[k], c))
 //@   ensures no_waiter_lost: forall s uuid.UUID, c chan struct{} :: old(waiting(s, c)) ==> closed(c) || waiting(s, c)
+//@   ghostensures forall s uuid.UUID :: wake_requested(s) <==> old(wake_requested(s)) || contains(subIDs, s)
+//@   modifies MH:*, MV:*, S:closed, S:wake_requested
 //@   loop 3
 //@     invariant forall s uuid.UUID, c chan struct{} :: old(waiting(s, c)) ==> closed(c) || waiting(s, c)
 //@     invariant forall k int, c chan struct{} :: 0 <= k && k <= idx ==> !waiting(subIDs[k], c)
@@ -77,3 +79,55 @@ package actions
 //@   ensures [C02] other_subscriptions: err == nil ==> (forall d Id :: old(deliveries.subscription_id(d)) != deref(a.params.ID) ==> delivery_unchanged(d))
 //@   ensures no_swallowed_failure: [C09] dbfailed() && !old(dbfailed()) ==> err != nil
 //@   modifies T:deliveries:completed_at, T:deliveries:completed_at$null, T:deliveries:expires_at, T:deliveries:attempt_at, S:dbfailed, F:actions.SeekSubscriptionToTime:*, F:actions.seekSubscriptionToTimeResults:*
+
+// Modification listeners are a separate registry; waking them does not touch tables or publish waiters' ghost.
+//@ func WakeTopicListeners(onlyInternal, topicID, topicName)
+//@   trusted
+//@   modifies MH:*, MV:*, S:closed
+//@ func WakeSubscriptionListeners(onlyInternal, subscriptionID, subscriptionName)
+//@   trusted
+//@   modifies MH:*, MV:*, S:closed
+
+// C09/C10: wake-ups are only registered as on-commit hooks; the hook wakes exactly the given subscriptions
+// and only when the commit succeeded (hook obligations are generated at the OnCommit call).
+//@ func notifyPublish(tx, subIDs)
+//@   property C10 C09
+//@   uses notifyspec
+//@   ensures registered: forall s uuid.UUID :: wake_on_commit(s) <==> old(wake_on_commit(s)) || contains(subIDs, s)
+//@   modifies S:wake_on_commit
+
+//@ func NotifyModifySubscription(tx, subscriptionID, subscriptionName)
+//@   property C10 C09
+//@   uses notifyspec
+//@   ensures registered: forall s uuid.UUID :: wake_on_commit(s) <==> old(wake_on_commit(s)) || s == subscriptionID
+//@   modifies S:wake_on_commit
+
+//@ func NotifyModifyTopic(tx, topicID, topicName)
+//@   property C09
+//@   uses notifyspec
+//@   ensures registered: forall s uuid.UUID :: wake_on_commit(s) <==> old(wake_on_commit(s))
+//@   modifies S:wake_on_commit
+
+// Metrics only.
+//@ func startActionTimer(metric, tx) (timer)
+//@   property C09
+//@   uses notifyspec
+//@   ensures timer != nil
+//@   ensures forall s uuid.UUID :: wake_on_commit(s) <==> old(wake_on_commit(s))
+//@   modifies S:wake_on_commit, F:actions.actionTimer:*
+
+// C04/C03/C10: modify-ack-deadline. A positive delay only ever postpones the next attempt of the listed, still
+// open deliveries; zero or negative makes them immediately redeliverable and wakes their subscriptions on commit.
+//@ func (*DelayDeliveries).Execute(a, ctx, tx) (err)
+//@   property C04
+//@   uses tables notifyspec
+//@   requires a != nil && tx != nil
+//@   ensures delay: err == nil ==> exists now clock :: forall d Id ::
+//@       (old(open(d)) && old(inlist(d, a.params.IDs)) ==>
+//@          (a.params.Delay > 0 ==> deliveries.attempt_at(d) == ite(old(deliveries.attempt_at(d)) < now + a.params.Delay, now + a.params.Delay, old(deliveries.attempt_at(d)))) &&
+//@          (a.params.Delay <= 0 ==> deliveries.attempt_at(d) == now + a.params.Delay && deliveries.attempt_at(d) <= now)) &&
+//@       (!(old(open(d)) && old(inlist(d, a.params.IDs))) ==> deliveries.attempt_at(d) == old(deliveries.attempt_at(d)))
+//@   ensures [C10] wakes_on_nack: err == nil && a.params.Delay <= 0 ==>
+//@       (forall d Id :: old(open(d)) && old(inlist(d, a.params.IDs)) ==> wake_on_commit(old(deliveries.subscription_id(d))))
+//@   ensures [C09] no_swallowed_failure: dbfailed() && !old(dbfailed()) ==> err != nil
+//@   modifies T:deliveries:attempt_at, S:dbfailed, S:wake_on_commit, E:uuid.UUID:, F:actions.DelayDeliveries:actionBase.results, F:actions.delayDeliveriesResults:*, F:actions.actionTimer:*
